@@ -59,9 +59,10 @@ def build_vmx(cfg: dict):
         right = i == cfg["which"]
         pw = cfg["passphrase"] if right else "other-%d" % i
         dk = data_key if right else rb(32)
+        # every pair names its own MAC; encryption.data is sealed with the MAC of the pair that holds its key
         text, blob = W.keysafe_pair(pw, cfg["kdf"] if right else rng.choice(sorted(W.KDFS)), cfg["cipher"] if right else rng.choice(sorted(W.CIPHERS)),
-                                    cfg["rounds"] if right else 2, rb(cfg["salt_len"]), cfg["mac"], dk, cfg["data_cipher"] if right else "AES-256",
-                                    rb(8), rb(16), cfg["upper"])
+                                    cfg["rounds"] if right else 2, rb(cfg["salt_len"]), cfg["mac"] if right else rng.choice(sorted(W.MACS)), dk,
+                                    cfg["data_cipher"] if right else "AES-256", rb(8), rb(16), cfg["upper"])
         pairs.append(text)
         blobs.append(blob)
     inner = []
@@ -364,6 +365,15 @@ def _run_c16(case, world, log, v):
             return v("keystore-key", f"derived key differs from PBKDF2-HMAC-SHA256(data1||salt, data2) ({sig})"), cfg
         if ks.id != str(uuid.UUID(bytes=key_id)):
             return v("keystore-id", f"keystore id {ks.id} != stored {uuid.UUID(bytes=key_id)}"), cfg
+        # a second keystore with the same key id but other stored values (a re-keyed host): its key is a function of ITS values
+        r2 = rng_for("ks2", cfg["seed"])
+        d1b, d2b = bytes(r2.getrandbits(8) for _ in range(16)), bytes(r2.getrandbits(8) for _ in range(16))
+        ks3 = KeyStore.from_text(W.keystore_text(key_id, d1b, d2b, cfg["ks_style"]))
+        if ks3.key != W.keystore_key(d1b, d2b):
+            return v("keystore-key-stale", "a second keystore with the same keyId but different data1/data2 yields the first keystore's key"), cfg
+        ks4 = KeyStore.from_text(Path(d + "/encryption.info").read_text())
+        if ks4.key != key:
+            return v("keystore-key-stale", "re-parsing the first keystore after another one yields a different key"), cfg
         return None, cfg
 
     if t[0] in ("cli", "cli_tampered"):
@@ -537,3 +547,9 @@ def evidence_extra():
 
 
 SHRINK_LISTS = []
+
+
+def warm_process():
+    from hvsim.engines import monitor as _m
+
+    _m.warm()
